@@ -162,7 +162,7 @@ Theorem concat_reading a v rows r sep :
   exists l, Permutation l (map term_str (avals a v rows)) /\ r = Some (TStr (join sep l)).
 Proof.
   unfold agg_adm, avals. intros -> ->.
-  destruct r as [[| | | |s]|]; try discriminate.
+  destruct r as [[| | | |s| |]|]; try discriminate.
   intros H. apply concat_match_sound in H. destruct H as [l [Hl ->]]. eauto.
 Qed.
 
